@@ -969,6 +969,9 @@ func sliceMapToSlice(m map[string]any) ([]any, error) {
 		if err != nil {
 			return nil, fmt.Errorf("array indexes must be integers: %w", err)
 		}
+		if key < 0 {
+			return nil, fmt.Errorf("array indexes must not be negative: %d", key)
+		}
 		keys = append(keys, key)
 	}
 	max := -1
